@@ -4,6 +4,8 @@ import (
 	"fmt"
 	"os"
 	"runtime"
+	"runtime/debug"
+	"strings"
 )
 
 // runProp evaluates one property's rules on a world, converting engine panics into an unresolved obligation.
@@ -173,6 +175,7 @@ func (c *nfChain) get(k int) *World {
 		if !c.keepAll && last >= 1 {
 			c.worlds[last] = nil // a round that has been superseded is not needed again (each world is ~3 GB)
 			runtime.GC()
+			debug.FreeOSMemory()
 		}
 	}
 	if k < len(c.worlds) {
@@ -187,6 +190,9 @@ func (c *nfChain) decide(id, tier string, r *Report, known []knownFinding) {
 		if len(r.openRules(known)) == 0 {
 			return
 		}
+		if k >= 2 && !c.nextRoundRelevant(k-1, r, known) {
+			return // the next normal form changes nothing in the files of the functions the open obligations are about
+		}
 		wk := c.get(k)
 		if wk == nil {
 			return
@@ -194,4 +200,41 @@ func (c *nfChain) decide(id, tier string, r *Report, known []knownFinding) {
 		rk, _ := runProp(id, wk, tier)
 		adoptFromNormalForm(r, rk, known)
 	}
+}
+
+// nextRoundRelevant: would the normal form of world `from` rewrite a file that holds a function named in one of r's
+// open obligations? (An obligation whose key names no function keeps the rounds going.) Building the overlay is cheap
+// (syntax only); loading it is what costs.
+func (c *nfChain) nextRoundRelevant(from int, r *Report, known []knownFinding) bool {
+	if from >= len(c.worlds) || c.worlds[from] == nil {
+		return true
+	}
+	w := c.worlds[from]
+	open := r.openRules(known)
+	files := map[string]bool{}
+	for _, o := range r.Obls {
+		if o.status == Discharged || !open[o.Rule] {
+			continue
+		}
+		named := false
+		for _, tok := range strings.FieldsFunc(o.Key, func(c rune) bool { return c == '|' || c == '<' || c == '#' || c == '=' }) {
+			tok = strings.TrimPrefix(tok, "-")
+			if fn := w.Funcs[tok]; fn != nil && fn.Pos().IsValid() {
+				files[w.Fset.Position(fn.Pos()).Filename] = true
+				named = true
+			}
+		}
+		if !named {
+			return true
+		}
+	}
+	save := inlineSerialBase
+	ov := w.BuildNormalForm()
+	inlineSerialBase = save // (a dry run: the real build of this round reuses the same names)
+	for f := range ov {
+		if files[f] {
+			return true
+		}
+	}
+	return false
 }
